@@ -217,7 +217,7 @@ impl TryFrom<&str> for FeelDaysAndTimeDuration {
       if captures.name("sign").is_some() {
         nanoseconds = -nanoseconds;
       }
-      if is_valid {
+      if is_valid && !value.ends_with('T') {
         return Ok(FeelDaysAndTimeDuration(nanoseconds));
       }
     }
